@@ -994,8 +994,8 @@ class Engine:
                 cur = st.env.get(n)
                 if isinstance(cur, V):
                     s2.env[n] = fresh(cur.t, n)
-        if st.yields is not None:
-            s2.yields = fresh(st.yields.t, 'yields')
+        if st.yields is not None and any(isinstance(n, (ast.Yield, ast.YieldFrom)) for b in node.body for n in ast.walk(b)):
+            s2.yields = fresh(st.yields.t, 'yields')          # only a loop that yields changes what has been yielded
         return s2
 
     def st_While(self, s, st):
@@ -1043,7 +1043,7 @@ class Engine:
         itv = self.ev(s.iter, st)
         outs0 = self.flush_raises(st)
         # constant iterables are unrolled
-        if isinstance(itv, VPy) and isinstance(itv.obj, (tuple, list)) and not (itv.obj and itv.obj[0] == 'enumerate'):
+        if isinstance(itv, VPy) and isinstance(itv.obj, (tuple, list)) and not (itv.obj and itv.obj[0] in ('enumerate', 'finditer')):
             states = [st]
             result = list(outs0)
             for item in itv.obj:
@@ -1070,6 +1070,12 @@ class Engine:
             outs0 = outs0 + self.flush_raises(st)
             itv = V(itv.t.inner, itv.t.val(itv.term))
         var = s.target.id if isinstance(s.target, ast.Name) else None
+        elem_map = None
+        if isinstance(itv, VPy) and isinstance(itv.obj, tuple) and itv.obj and itv.obj[0] == 'finditer':
+            from .rx_rules import MATCH
+            _, pid_, subj_, starts_ = itv.obj
+            itv = starts_
+            elem_map = lambda pos: V(MATCH, MATCH._dt.mk(z3.IntVal(pid_), subj_.term, pos))     # noqa: E731
         if isinstance(s.target, ast.Name) and isinstance(s.iter, ast.Name):
             k_, spec_ = self.loop_spec(s, var)
             if spec_.get('iter_text'):
@@ -1097,6 +1103,9 @@ class Engine:
         st.env[iname] = V(INT, z3.IntVal(0))
         invs = spec.get('invariant', [])
         self.apply_uses(st)
+        for fact in spec.get('assume_seq', []):
+            # facts about the iterated sequence as a whole (part of its producer's assumed contract): known from before the loop
+            st.pc.append(self.spec_bool(fact, st))
         for inv in invs:
             self.oblige_raw(st, 'loop-entry', self.spec_bool(inv, st), f'loop #{k} invariant holds on entry: {inv}')
         s2 = self.havoc_for_loop(s, st, spec)
@@ -1114,6 +1123,8 @@ class Engine:
             # iterating a str yields one-character strings; they are represented by their code point (cps of len 1)
             elem = V(CPS, z3.Unit(seq.term[i]))
             sb.pc.append(z3.And(seq.term[i] >= 0, seq.term[i] <= 0x10FFFF))
+        if elem_map is not None:
+            elem = elem_map(seq.term[i])
         if enum:
             self.assign(s.target.elts[0], V(INT, i), sb)
             self.assign(s.target.elts[1], elem, sb)
@@ -1449,6 +1460,10 @@ class Engine:
                 return V(a.t, z3.Concat(a.term, b.term))
             if isinstance(a.t, TSeq) and a.t == b.t:
                 return V(a.t, z3.Concat(a.term, b.term))
+        if isinstance(op, ast.Mult) and {a.t, b.t} == {STR, INT}:
+            # str * int never raises; the product is an uninterpreted function of both (nothing proved here depends on its value)
+            sv, nv = (a, b) if a.t == STR else (b, a)
+            return V(STR, self.world.ufunc('str.repeat', STR.sort(), INT.sort(), STR.sort())(sv.term, nv.term))
         if a.t == BOOL:
             a = self.coerce(a, INT)
         if b.t == BOOL:
